@@ -689,6 +689,10 @@ def reachdist(CIJ, ensure_binary=True):
     -----
     faster but more memory intensive than "breadthdist.m".
     '''
+    # D receives inf below and the matrix powers must be neither logical (bool)
+    # nor wrap (small ints): work in float whatever the storage of the argument
+    CIJ = np.asarray(CIJ, dtype=float)
+
     def reachdist2(CIJ, CIJpwr, R, D, n, powr, col, row):
         CIJpwr = np.dot(CIJpwr, CIJ)
         R = np.logical_or(R, CIJpwr != 0)
